@@ -411,7 +411,7 @@ def run(ctx):
                     add(c, site)
 
     # ---------------------------------------------------------------- (D) multi-objective protocols with a declared linear preference
-    npref = 24 if thorough else 8
+    npref = 36 if thorough else 12
     for t in range(npref):
         n = rng.randrange(5, 9); L = rng.randrange(4, 7); T = 2
         pop = population(rng, n, L, T)
@@ -419,14 +419,17 @@ def run(ctx):
         mod, stem, kwf, src, mate = fams[fam]
         cls = getattr(importlib.import_module(SEL + mod), stem + "SubsetSelection")
         npar = 2; nc = rng.randrange(1, min(3, n // 2) + 1); k = nc * npar
-        vec = [rng.choice([-2, -1, 1, 2, 3]) for _ in range(T)]; wt = rng.choice([1, -1])
+        vec = [rng.choice([-2, -1, 1, 2, 3]) for _ in range(T)]; wt = [1, -1, -1, 1, -1, -1][t % 6]      # every transformation with both signs
 
-        def pref(mat, vec=None, **kwargs):
-            return np.asarray(mat) @ np.asarray(vec, float)
+        trans = ("dot", "sq", "max")[t % 3]
+
+        def pref(mat, vec=None, trans=trans, **kwargs):
+            w = np.asarray(mat) * np.asarray(vec, float)[None, :]
+            return {"dot": w.sum(1), "sq": w.sum(1) ** 2, "max": w.max(1)}[trans]
         seed = rng.randrange(2 ** 31)
         site = "%sSubsetSelection.select[multi-objective]" % stem
         moalg = rng.choice(["NSGA2SubsetGeneticAlgorithm", "NSGA3SubsetGeneticAlgorithm"])
-        c = {"kind": "pref", "wt": wt, "vec": vec, "err": "none", "algo": moalg}
+        c = {"kind": "pref", "wt": wt, "vec": vec, "err": "none", "algo": moalg, "trans": trans}
         try:
             with time_limit(240), np.errstate(all="ignore"):
                 np.random.seed(seed); prng.seed(seed)
